@@ -400,6 +400,8 @@ var c04Hostile = [][]byte{
 	// plain texts (no JSON at all) holding a backslash-u that is followed by something else than four hex digits: what the text
 	// decoders and the fallbacks of the language-value decoders get when a caller hands them raw text
 	[]byte(`C:\users\public`), []byte(`\underline{x} and \u00e9 and \u00g9`), []byte(`"caf\u00g9 unterminated`), []byte(`\u`), []byte(`\u12`), []byte(`\uZZZZ\uZZZZ\uZZZZ`), []byte(`{"en":"x\uqqqq"`),
+	// plain texts with brackets that do not pair up (the text[tag] form the text marshaler writes, cut anywhere)
+	[]byte(`ab]`), []byte(`see note 1]`), []byte(`"a","b"]`), []byte(`[`), []byte(`]`), []byte(`x[`), []byte(`][`), []byte(`text[en`), []byte(`text]en[`), []byte(`[]`), []byte(`text[]`), []byte(`[en]`), []byte(`a[b]c]`),
 	// language-tagged texts that are not valid UTF-8, in values that have an id (the verbose formatter prints those): the parser passes the bytes through
 	[]byte("{\"type\":\"Note\",\"id\":\"https://a.b/n\",\"nameMap\":{\"en\":\"caf\xe9\",\"fr\":\"\xff\xfe\"},\"summaryMap\":{\"de\":\"\xc3\"},\"content\":\"\x80\",\"contentMap\":{\"en\":\"\xed\xa0\x80\"}}"),
 	[]byte("{\"type\":\"Person\",\"id\":\"https://a.b/p\",\"preferredUsernameMap\":{\"en\":\"\xf8\x88\"},\"name\":\"\xf8\",\"summaryMap\":{\"en\":\"a\xc0\xafb\",\"-\":\"\xfe\"}}"),
